@@ -70,14 +70,16 @@ def decorate_uses(mods, rng):
         for u in m["uses"]:
             t = mods[u["target"]]
             avail = sorted(exports(t, mods, exp).keys())
-            form = rng.choice(["plain", "plain", "only", "rename", "only_rename", "nature", "two"])
-            if not avail and form != "plain":
+            form = rng.choice(["plain", "plain", "only", "rename", "only_rename", "nature", "two", "only_empty"])
+            if not avail and form not in ("plain", "only_empty"):
                 form = "plain"
             u["stmts"] = []
             if form == "plain":
                 u["stmts"].append({"only": None, "renames": []})
             elif form == "nature":
                 u["stmts"].append({"only": None, "renames": [], "nature": "non_intrinsic"})
+            elif form == "only_empty":  # `use m, only:` imports nothing
+                u["stmts"].append({"only": [], "renames": []})
             elif form == "only":
                 sel = rng.sample(avail, rng.randint(1, min(3, len(avail))))
                 u["stmts"].append({"only": [(n, None) for n in sel], "renames": []})
@@ -456,7 +458,7 @@ def main():
     run = core.Run(
         PID,
         rule="case = (module DAG shape over <=3 providers + consumer [exhaustive], decoration seed: default public/private, explicit "
-        "public lists for re-export, per-entity access, USE form per edge from {plain, only, rename, only+rename, non_intrinsic, two "
+        "public lists for re-export, per-entity access, USE form per edge from {plain, only, empty only, rename, only+rename, non_intrinsic, two "
         "USEs of one module}, USE at module level or inside the probing procedure, permutation of file order). Every candidate "
         "name (entities of all modules and rename locals) is probed in the consumer: type(n), procedure(n) pointer, namelist member, "
         "call / function reference. Non-trivial: a re-export or rename is involved and >=1 inaccessible candidate is probed; "
